@@ -3,6 +3,7 @@ import Martian.Generated.Mitm
 import Martian.Props.C06.Hostname
 import Martian.Props.C06.Normalise
 import Martian.Props.C06.Sched
+import Martian.Props.C06.Facts
 /-!
 C06 — Forged certificates verify for the requested host under the configured CA.
 Only property theorems and non-vacuity examples live here.
